@@ -1260,6 +1260,7 @@ int safec_vsnprintf_s(out_fct_type out, const char *funcname, char *buffer,
                     return len;
                 }
                 wstr[len] = '\0';
+                l = (unsigned int)len;
 #else
                 char msg[80];
                 snprintf(msg, sizeof msg, "%s: unsupported %%lc arg", funcname);
@@ -1334,8 +1335,10 @@ int safec_vsnprintf_s(out_fct_type out, const char *funcname, char *buffer,
                 errno = 0;
                 len = wcstombs(p, lp, l);
                 err = (len == (size_t)-1) ? (errno ? errno : EILSEQ) : EOK;
-                if (err == EOK)
+                if (err == EOK) {
                     p[len] = '\0';
+                    l = (unsigned int)len; /* no partial character */
+                }
                 if (err != EOK) {
                     char msg[80];
                     snprintf(msg, sizeof msg,
@@ -1363,7 +1366,8 @@ int safec_vsnprintf_s(out_fct_type out, const char *funcname, char *buffer,
                     invoke_safe_str_constraint_handler(msg, buffer, ESNULLP);
                     return -(ESNULLP);
                 }
-                l = safec_strnlen_s(p, precision ? precision : (size_t)-1);
+                l = safec_strnlen_s(
+                    p, (flags & FLAGS_PRECISION) ? precision : (size_t)-1);
             }
             if (l + idx > bufsize) {
                 char msg[80];
